@@ -82,6 +82,7 @@ impl<R: Read + Seek> ReadBox<&mut R> for MoovBox {
                     "moov box contains a box with a larger size than it",
                 ));
             }
+            check_child_size(s)?;
 
             match name {
                 BoxType::MvhdBox => {
